@@ -139,6 +139,9 @@ impl Gen {
             ("getxattr", 2, 2, 0),
             ("listxattr", 1, 1, 0),
             ("removexattr", 3, 1, 0),
+            ("forget_root", 1, 3, 0),
+            ("batch_forget", 1, 3, 0),
+            ("remount", 1, 1, 2),
         ];
         let total: u64 = table.iter().map(|t| if seal { t.3 } else if c06 { t.2 } else { t.1 }).sum();
         let mut r = self.rng.below(total);
@@ -160,9 +163,29 @@ impl Gen {
         match op {
             "lookup" => {
                 let p = if c06 && self.rng.chance(1, 4) { self.pick_node(&[]) } else { self.pick_node(&["dir"]) };
-                let (name, nk) = if seal { (json!(*self.rng.pick(FILES)), "plain") } else { self.name(75, hostile_p) };
+                let (name, nk) = if seal {
+                    (json!(*self.rng.pick(FILES)), "plain")
+                } else if c06 && self.rng.chance(1, 6) {
+                    (json!(".."), "dotdot") // walks upwards, from the root and from directories below it
+                } else {
+                    self.name(75, hostile_p)
+                };
                 json!({"op": "lookup", "p": p, "name": name, "nk": nk})
             }
+            // FORGET / BATCH_FORGET naming the root, with counts far above any reference count it may have
+            "forget_root" => json!({"op": "forget_root", "count": *self.rng.pick(&[1u64, 2, 3, 1000, 1 << 40])}),
+            "batch_forget" => {
+                let mut items = vec![json!([0, *self.rng.pick(&[1u64, 2, 3, 1000, 1 << 40])])];
+                if self.rng.chance(1, 2) {
+                    let n = self.pick_node(&[]);
+                    if n > 0 && !self.handles.iter().any(|h| h.valid && h.node == n as usize) {
+                        items.push(json!([n, 1]));
+                    }
+                }
+                json!({"op": "batch_forget", "items": items})
+            }
+            // DESTROY followed by INIT on the same object
+            "remount" => json!({"op": "remount"}),
             "forget" => {
                 let mut n = self.pick_node(&[]);
                 if n > 0 && self.handles.iter().any(|h| h.valid && h.node == n as usize) {
